@@ -64,8 +64,13 @@ try:
 except ImportError:
     NOT_APPLICABLE = {}
 
+import sys
+sys.path.insert(0, ROOT)
+from checkmeta import META
 checks = []
 for pid, (text, technique, ref) in sorted(CLAIMED.items()):
+    mods = [pid] + META.get(pid, {}).get("extra_modules", [])
+    text = text.rstrip() + " Proof modules whose every theorem is re-checked and audited on each run: " + ", ".join("Props/" + m + ".lean" for m in mods) + " (the ...More / C01Time / C06Spec / C07Sites / C14Fits / C15Reports / C15Multi modules are described in DESIGN.md 14.20 and 14.25)."
     checks.append({
         "property_id": pid,
         "quick_cmd": f"./check {pid} quick",
@@ -94,7 +99,7 @@ manifest = {
  },
  "engines": [{"name": "lean4-proof+correspondence", "path": "/verif/check",
               "serves_properties": sorted(CLAIMED),
-              "kind_free_text": "Lean 4 theorems about a hand-written executable model (/verif/lean), tied to the code by a differential correspondence harness (/verif/harness) driven by ./check"}],
+              "kind_free_text": "Lean 4 theorems about a hand-written executable model (/verif/lean), tied to the code on every run by a differential correspondence harness (/verif/harness) and by tables and envelope numbers regenerated from the Rust sources (tools/translate.py, tools/translate_env.py, Props/Tie.lean, Props/TieEnv.lean), driven by ./check"}],
  "checks": checks,
  "not_applicable": na,
  "notes": "See DESIGN.md. known_findings.txt lists recorded findings and fixed defects.",
